@@ -4,6 +4,7 @@ import (
 	"fmt"
 	"go/token"
 	"go/types"
+	"sort"
 	"strings"
 
 	"golang.org/x/tools/go/ssa"
@@ -197,9 +198,18 @@ func (fr *Frame) loopHead(b *ssa.BasicBlock) {
 		fr.preserveLocalsNotIn(b)
 	} else {
 		mods := c.loopMods[key]
+		var names []string
 		for name := range mods {
+			names = append(names, name)
+		}
+		sort.Strings(names)
+		for _, name := range names {
 			if _, ok := c.compSort[name]; ok {
 				c.comp(fr.st, name, c.compSort[name])
+				if name == "alloc" {
+					fr.growAlloc() // allocation only grows across iterations
+					continue
+				}
 				c.havocComp(fr.st, name)
 			}
 		}
@@ -214,6 +224,14 @@ func (fr *Frame) loopHead(b *ssa.BasicBlock) {
 		for _, f := range c.typeFacts(n, ph.Type(), 0) {
 			c.assert(implies(fr.pc, f))
 		}
+	}
+	// every pointer-like value held in a variable refers to an allocated object
+	for _, in := range b.Instrs {
+		ph, ok := in.(*ssa.Phi)
+		if !ok {
+			break
+		}
+		fr.assumeAlive(fr.vals[ph], ph.Type())
 	}
 	// alloc only grows
 	if al, ok := fr.st.comps["alloc"]; ok {
@@ -278,9 +296,16 @@ func (fr *Frame) backEdge(p, h *ssa.BasicBlock, cond Term) {
 			c.loopMods[key] = map[string]bool{}
 		}
 		for name, t := range fr.st.comps {
-			if hs == nil || hs.comps[name] != t {
-				c.loopMods[key][name] = true
+			if hs != nil {
+				ht, present := hs.comps[name]
+				if present && ht == t {
+					continue
+				}
+				if !present && t == c.compInit[name] {
+					continue // first read inside the loop, never written
+				}
 			}
+			c.loopMods[key][name] = true
 		}
 		return
 	}
@@ -306,7 +331,7 @@ func (fr *Frame) backEdge(p, h *ssa.BasicBlock, cond Term) {
 	fr.st = fr.st.clone()
 	defer func() { fr.st = saved }()
 	for _, gs := range spec.Sets {
-		fr.applyLoopGhostSet(gs, h, subst)
+		fr.applyLoopGhostSet(gs, h, p, subst)
 	}
 	for _, inv := range spec.Invs {
 		e := fr.env(h)
@@ -1331,14 +1356,15 @@ func (fr *Frame) selectInstr(x *ssa.Select) {
 // applyLoopGhostSet performs a ghost update on a back edge: plain names denote
 // the values at the loop head of this iteration, next.x the values the next
 // iteration starts with; heap reads see the state at the back edge.
-func (fr *Frame) applyLoopGhostSet(gs *GhostSet, h *ssa.BasicBlock, subst map[ssa.Value]Term) {
+func (fr *Frame) applyLoopGhostSet(gs *GhostSet, h, from *ssa.BasicBlock, subst map[ssa.Value]Term) {
 	c := fr.c
 	g, ok := c.P.Specs.Ghosts[gs.Name]
 	if !ok {
 		c.unsupported("loop ghost set of unknown ghost " + gs.Name)
 		return
 	}
-	e := fr.env(h)
+	e := fr.env(from)
+	e.loopHead = h
 	e.subst = map[ssa.Value]Term{}
 	for _, in := range h.Instrs {
 		if ph, ok := in.(*ssa.Phi); ok {
